@@ -428,6 +428,8 @@ func TestVerif(t *testing.T) {
 		h = admHarness{}
 	case "C08":
 		h = authHarness{}
+	case "C09":
+		h = raceHarness{}
 	default:
 		t.Fatalf("unknown property %s for package app", e.Prop)
 	}
